@@ -28,7 +28,8 @@ TRUSTED_BASE = BASE_TRUSTED + [
     'int() of a dyadic int expression and math.factorial are translated to Z.quot / a Z product (py2coq); '
     'valid for |values| < 2**52 and non-negative factorial arguments, exercised by the kernel correspondence',
 ]
-RULE = ('coefficient containers (int/float/bool lists, tuples, int/float arrays, the default 36 zeros) x histories on one object (construct-evaluate, item-assign-evaluate, replace-evaluate, additivity entered term by term, second default object) x argument kinds: fixed corpus, counts in the histogram of property_oracles_on_implementation; recovery: for each family and every N = 1..37 four points/terms classes M = N (boundary), N+1, 2N, >= 2N+10, points chosen by pivoted QR of an independent design matrix, cond <= 1e3 required (reported in the histogram); recovery cases include data scaled to 1e-11 / 1e-13 (homogeneity of the fit); index lists: the three _generate_indices outputs are enumerated completely (3 x 120 positions) against the model and '
+RULE = ('several fit objects alive in one process (fixed corpus, histogram fit_object_histories): three fits a, b, a+2b of one family queried after all exist (recovery, linearity, reproduction), query / later fit with other N and points / query again, the same arrays handed to several fits of the same and of another family, edit one fit\'s coefficient and edit back, ZernikeOPD for two fields of one lens with a ZernikeFit in between; expected = generating coefficients (independent basis) or numpy lstsq of the captured samples; '
+        'coefficient containers (int/float/bool lists, tuples, int/float arrays, the default 36 zeros) x histories on one object (construct-evaluate, item-assign-evaluate, replace-evaluate, additivity entered term by term, second default object) x argument kinds: fixed corpus, counts in the histogram of property_oracles_on_implementation; recovery: for each family and every N = 1..37 four points/terms classes M = N (boundary), N+1, 2N, >= 2N+10, points chosen by pivoted QR of an independent design matrix, cond <= 1e3 required (reported in the histogram); recovery cases include data scaled to 1e-11 / 1e-13 (homogeneity of the fit); index lists: the three _generate_indices outputs are enumerated completely (3 x 120 positions) against the model and '
         'against the published rule evaluated in Coq; kernels: every supported (n, m) of the three lists x seeded r in [0,1] '
         '(incl. 0 and 1), phi in [-pi, pi]; poly/objective/fit: seeded coefficient vectors of length 1..37 (and up to 120 for '
         'poly), sample sets of >= 2N+10 points uniform in the unit disk; lenses from tools/lensgen.simple_spec for ZernikeOPD. '
@@ -534,6 +535,227 @@ def oracle_shared_default():
     return ws[0] if ws else None
 
 
+# --------------------------------------------------------------------------------------------
+# histories over SEVERAL fit objects alive in one process (fixed corpus)
+# --------------------------------------------------------------------------------------------
+_FH_CACHE = []
+FIT_HISTORY_NS = (1, 6, 21, 37)
+
+
+def _fh_vec(rng, N):
+    return np.array([rng.uniform(0.3, 1) * rng.choice([-1, 1]) for _ in range(N)])
+
+
+def oracle_fit_object_histories():
+    """"fitting recovers those coefficients / is linear in the data / reproduces the sampled OPD" are statements about every
+    fit object, also when other fit objects exist: the property is quantified over all data sets, so the answer of fit(a)
+    may not depend on whether fit(b) has been made since.  Fixed corpus of multi-object histories, all answers queried
+    AFTER the last object of the history was created:
+      H1 fit(a), fit(b), fit(a + 2b) of one family / N / point set -> recovery of a and b, linearity, reproduction of the samples
+      H2 fit(a) ; query ; fit(b) of the same family with other N and other points ; query fit(a) again
+      H3 the same x, y, z arrays handed to two fits (same family twice, another family) -> both answer, arrays untouched
+      H4 fit(a), fit(b) ; the user edits one coefficient of fit(b) and edits it back ; fit(a) answers for a at every step
+      H5 ZernikeOPD for two fields of one lens (and a ZernikeFit of the same family in between) -> the first still is the
+         least-squares decomposition of ITS sampled OPD
+    Expected values are the coefficient vectors the data were generated from (independent basis `pub_basis`, signs per
+    family) or an independent numpy lstsq of the captured samples.  Returns (first failing history, histogram)."""
+    if _FH_CACHE:
+        return _FH_CACHE[0]
+    zk = _zk()
+    rng = random.Random(601010)
+    hist = {'histories': {}, 'per_family': {}, 'N_values': list(FIT_HISTORY_NS), 'max_cond': 0.0, 'objects_alive_max': 0,
+            'opd_pairs': 0, 'opd_pairs_with_distinct_data': 0}
+    first = []
+    tol = 1e-6
+
+    def bump(k, fam):
+        hist['histories'][k] = hist['histories'].get(k, 0) + 1
+        hist['per_family'][fam] = hist['per_family'].get(fam, 0) + 1
+
+    def fail(fam, N, history, step, what, got, exp, err, extra=None):
+        if not first:
+            w = {'kind': 'fit-object-history', 'family': fam, 'N': N, 'history': history, 'queried': step, 'clause': what,
+                 'call': f'ZernikeFit(x, y, z, "{fam}", {N}) ; {history}', 'observed': [float(v) for v in np.ravel(got)][:40],
+                 'expected': [float(v) for v in np.ravel(exp)][:40], 'relative_error': float(err), 'tolerance': tol}
+            w.update(extra or {})
+            first.append(w)
+
+    def coeffs_of(fit, N):
+        c = np.asarray(fit.coeffs, dtype=float).ravel()
+        return c if len(c) == N else np.full(N, np.nan)
+
+    def relerr(got, exp):
+        got, exp = np.ravel(np.asarray(got, dtype=float)), np.ravel(np.asarray(exp, dtype=float))
+        if got.shape != exp.shape or not np.all(np.isfinite(got)):
+            return float('inf')
+        return float(np.max(np.abs(got - exp)) / max(1e-300, float(np.max(np.abs(exp)))))
+
+    def expect(fam, N, history, step, what, got, exp, extra=None):
+        e = relerr(got, exp)
+        if not e <= tol:
+            fail(fam, N, history, step, what, got, exp, e, extra)
+
+    def dataset(C, short, N, M):
+        for _ in range(6):
+            x, y, cond = spread_points(rng, short, N, M)
+            if cond <= 1e3:
+                break
+        rad, phi = np.sqrt(x * x + y * y), np.arctan2(y, x)
+        return x, y, rad, phi, _signed_basis(C, short, N, rad, phi), cond
+
+    for fi, (fam, cls, short) in enumerate(FAMS):
+        C = getattr(zk, cls)
+        for N in FIT_HISTORY_NS:
+            x, y, rad, phi, Z, cond = dataset(C, short, N, 2 * N + 12)
+            if cond > 1e3:
+                continue
+            hist['max_cond'] = max(hist['max_cond'], cond)
+            ca, cb = _fh_vec(rng, N), _fh_vec(rng, N)
+            za, zb = Z @ ca, Z @ cb
+            pts = {'x': x.tolist(), 'y': y.tolist(), 'coefficients_a': ca.tolist(), 'coefficients_b': cb.tolist(),
+                   'design_condition_number': cond}
+            # H1 -------------------------------------------------------------------------------------------------
+            h = 'fa = fit(a) ; fb = fit(b) ; fab = fit(a + 2 b)  (same family, N, points) ; then query'
+            bump('H1 three fits of one family alive, queried afterwards', fam)
+            fa = zk.ZernikeFit(x, y, za, fam, N)
+            fb = zk.ZernikeFit(x, y, zb, fam, N)
+            fab = zk.ZernikeFit(x, y, za + 2 * zb, fam, N)
+            ga, gb, gab = coeffs_of(fa, N), coeffs_of(fb, N), coeffs_of(fab, N)
+            expect(fam, N, h, 'fa.coeffs', 'recovery', ga, ca, pts)
+            expect(fam, N, h, 'fb.coeffs', 'recovery', gb, cb, pts)
+            expect(fam, N, h, 'fab.coeffs', 'recovery', gab, ca + 2 * cb, pts)
+            expect(fam, N, h, 'fab.coeffs vs fa.coeffs + 2 fb.coeffs', 'linearity in the data', gab, ga + 2 * gb, pts)
+            expect(fam, N, h, 'fa.zernike.poly(fa.radius, fa.phi)', 'reproduces the samples',
+                   np.asarray(fa.zernike.poly(fa.radius, fa.phi), dtype=float) * np.ones(len(za)), za, pts)
+            expect(fam, N, h, 'fb.zernike.poly(fb.radius, fb.phi)', 'reproduces the samples',
+                   np.asarray(fb.zernike.poly(fb.radius, fb.phi), dtype=float) * np.ones(len(zb)), zb, pts)
+            hist['objects_alive_max'] = max(hist['objects_alive_max'], 3)
+            # H4 (on the objects of H1) ----------------------------------------------------------------------------
+            h = 'fa = fit(a) ; fb = fit(b) ; fb.coeffs[0] += 1 ; query fa ; fb.coeffs[0] -= 1 ; query fa, fb'
+            bump('H4 edit one fit\'s coefficient and edit back, other fit queried', fam)
+            try:
+                fb.coeffs[0] += 1.0
+                editable = True
+            except TypeError:
+                editable = False
+            if editable:
+                expect(fam, N, h, 'fa.coeffs (after the edit of fb)', 'recovery', coeffs_of(fa, N), ca, pts)
+                fb.coeffs[0] -= 1.0
+                expect(fam, N, h, 'fa.coeffs (after the edit back)', 'recovery', coeffs_of(fa, N), ca, pts)
+                expect(fam, N, h, 'fb.coeffs (after the edit back)', 'recovery', coeffs_of(fb, N), cb, pts)
+            # H2 -------------------------------------------------------------------------------------------------
+            N2 = {1: 4, 6: 15, 21: 10, 37: 36}[N]
+            x2, y2, rad2, phi2, Z2, cond2 = dataset(C, short, N2, 2 * N2 + 9)
+            if cond2 <= 1e3:
+                h = f'f1 = fit(a) ; query ; f2 = fit(c) with the same family, N = {N2}, other points ; query f1 again'
+                bump('H2 query, later fit of other N / points, query again', fam)
+                cc = _fh_vec(rng, N2)
+                f1 = zk.ZernikeFit(x, y, za, fam, N)
+                expect(fam, N, h, 'f1.coeffs (before f2 exists)', 'recovery', coeffs_of(f1, N), ca, pts)
+                f2 = zk.ZernikeFit(x2, y2, Z2 @ cc, fam, N2)
+                expect(fam, N, h, 'f1.coeffs (after f2 was created)', 'recovery', coeffs_of(f1, N), ca, pts)
+                expect(fam, N, h, 'f1.zernike.poly(f1.radius, f1.phi) (after f2 was created)', 'reproduces the samples',
+                       np.asarray(f1.zernike.poly(f1.radius, f1.phi), dtype=float) * np.ones(len(za)), za, pts)
+                expect(fam, N2, h, 'f2.coeffs', 'recovery', coeffs_of(f2, N2), cc,
+                       {'x': x2.tolist(), 'y': y2.tolist(), 'coefficients_c': cc.tolist(), 'design_condition_number': cond2})
+                hist['objects_alive_max'] = max(hist['objects_alive_max'], 5)
+            # H3 -------------------------------------------------------------------------------------------------
+            fam_o, cls_o, short_o = FAMS[(fi + 1) % 3]
+            Ao = _signed_basis(getattr(zk, cls_o), short_o, N, rad, phi)
+            h = f'the same arrays x, y, z handed to g1 = fit("{fam}"), g2 = fit("{fam_o}"), g3 = fit("{fam}") ; then query'
+            bump('H3 same arrays handed to several fits (same and other family)', fam)
+            xs, ys, zs = x.copy(), y.copy(), za.copy()
+            g1 = zk.ZernikeFit(xs, ys, zs, fam, N)
+            g2 = zk.ZernikeFit(xs, ys, zs, fam_o, N)
+            g3 = zk.ZernikeFit(xs, ys, zs, fam, N)
+            expect(fam, N, h, 'g1.coeffs', 'recovery', coeffs_of(g1, N), ca, pts)
+            expect(fam, N, h, 'g3.coeffs', 'recovery', coeffs_of(g3, N), ca, pts)
+            if np.linalg.cond(Ao) <= 1e3:
+                ref, *_ = np.linalg.lstsq(Ao, za, rcond=None)
+                res = float(np.linalg.norm(Ao @ ref - za))
+                smin = float(np.linalg.svd(Ao, compute_uv=False)[-1])
+                sc = max(1e-300, float(np.max(np.abs(ref))))
+                e = relerr(coeffs_of(g2, N), ref)
+                # same bound as opd_case: |c_fit - c*| <= sqrt(K ftol) |r*| / sigma_min
+                if not e <= tol + math.sqrt(SOLVER_K * SOLVER_FTOL) * res / (smin * sc):
+                    fail(fam_o, N, h, 'g2.coeffs', 'least-squares decomposition of the data', coeffs_of(g2, N), ref, e, pts)
+            if not (np.array_equal(xs, x) and np.array_equal(ys, y) and np.array_equal(zs, za)):
+                fail(fam, N, h, 'x, y, z after the fits', 'input arrays untouched', zs, za, relerr(zs, za), pts)
+    # H5 ZernikeOPD ------------------------------------------------------------------------------------------------
+    _opd_object_histories(hist, fail, relerr, tol)
+    _FH_CACHE.append((first[0] if first else None, hist))
+    return _FH_CACHE[0]
+
+
+def _opd_object_histories(hist, fail, relerr, tol, want=3):
+    import lensgen
+    from optiland.wavefront import ZernikeOPD
+    zk = _zk()
+    rng = random.Random(771010)
+    s_tol = math.sqrt(SOLVER_K * SOLVER_FTOL)
+    tries = 0
+    while hist['opd_pairs_with_distinct_data'] < want and tries < 5 * want:
+        fam, cls, short = FAMS[tries % 3]
+        N = (11, 22, 4)[tries % 3]
+        rings = (6, 8, 5)[tries % 3]
+        tries += 1
+        spec = lensgen.simple_spec(rng)
+        wl = spec['wavelengths'][0][0]
+        f1, f2 = (0.0, 1.0), (0.0, 0.0)
+        try:        # a lens that cannot be built / traced is not a case (as in check_opd)
+            lens = lensgen.build(spec)
+            zo1 = ZernikeOPD(lens, f1, wl, num_rings=rings, zernike_type=fam, num_terms=N)
+        except Exception:
+            continue
+        x1, y1 = np.array(zo1.distribution.x, dtype=float), np.array(zo1.distribution.y, dtype=float)
+        z1 = np.array(zo1.data[0][0][0], dtype=float)
+        if not (np.all(np.isfinite(z1)) and z1.size >= 2 * N):
+            continue
+        A = _design(getattr(zk, cls), N, x1, y1)
+        if np.linalg.cond(A) > 1e6:
+            continue
+        ref1, *_ = np.linalg.lstsq(A, z1, rcond=None)
+        try:
+            mid = zk.ZernikeFit(x1, y1, 0.5 - 2.0 * z1 + x1, fam, N)     # another consumer of the same family in between
+            zo2 = ZernikeOPD(lens, f2, wl, num_rings=rings, zernike_type=fam, num_terms=N)
+        except Exception:
+            continue
+        z2 = np.array(zo2.data[0][0][0], dtype=float)
+        hist['opd_pairs'] += 1
+        if not (np.all(np.isfinite(z2)) and z2.shape == z1.shape):
+            continue
+        ref2, *_ = np.linalg.lstsq(A, z2, rcond=None)
+        sc = max(1e-300, float(np.max(np.abs(ref1))))
+        if not float(np.max(np.abs(ref1 - ref2))) / sc > 1e-3:
+            continue                                    # both fields give the same wavefront: nothing to tell apart
+        hist['opd_pairs_with_distinct_data'] += 1
+        k = 'H5 ZernikeOPD for two fields of one lens (+ a ZernikeFit in between), first queried afterwards'
+        hist['histories'][k] = hist['histories'].get(k, 0) + 1
+        hist['per_family'][fam] = hist['per_family'].get(fam, 0) + 1
+        hist['objects_alive_max'] = max(hist['objects_alive_max'], 3)
+        h = (f'zo1 = ZernikeOPD(lens, {f1}, {wl}, num_rings={rings}, zernike_type="{fam}", num_terms={N}) ; '
+             f'ZernikeFit(x, y, 0.5 - 2 z + x, "{fam}", {N}) ; zo2 = ZernikeOPD(lens, {f2}, ...) ; query zo1')
+        r_ref = float(np.linalg.norm(A @ ref1 - z1))
+        smin = float(np.linalg.svd(A, compute_uv=False)[-1])
+        zn = float(np.linalg.norm(z1)) or 1.0
+        extra = {'spec': spec, 'field_1': list(f1), 'field_2': list(f2), 'wavelength': wl, 'num_rings': rings,
+                 'call': h, 'coefficients_of_second_field': ref2.tolist()[:40]}
+        got = np.asarray(zo1.coeffs, dtype=float).ravel()
+        e = relerr(got, ref1) if len(got) == N else float('inf')
+        if not e <= tol + s_tol * r_ref / (max(smin, 1e-300) * sc):
+            fail(fam, N, h, 'zo1.coeffs (after zo2 was created)', 'decomposition of its own sampled OPD', got, ref1, e, extra)
+        rep = np.asarray(zo1.zernike.poly(zo1.radius, zo1.phi), dtype=float) * np.ones(len(z1))
+        r_fit = float(np.linalg.norm(rep - z1))
+        if not r_fit / zn <= (r_ref / zn) * (1 + SOLVER_K * SOLVER_FTOL) + 1e-7:
+            fail(fam, N, h, 'zo1.zernike.poly(zo1.radius, zo1.phi) (after zo2 was created)',
+                 'reproduces the sampled OPD up to the truncation residual', [r_fit / zn], [r_ref / zn], r_fit / zn, extra)
+        del mid
+
+
+def oracle_fit_histories():
+    return oracle_fit_object_histories()[0]
+
+
 def guarded(name, f):
     """run an oracle; an exception raised INSIDE the implementation on a supported input is itself a failing input
     (reported with the call that raised); an exception of the harness propagates (and alarms as a harness failure)"""
@@ -557,7 +779,7 @@ def oracle_table(seed):
             ('containers-histories', oracle_containers, 0), ('shared-default', oracle_shared_default, 0),
             ('mean-square', oracle_mean_square, 360), ('orthonormal', oracle_orthonormal, 28800),
             ('poly-linear', lambda: oracle_linear(rng), 30), ('fit-recovers', lambda: oracle_fit(rng), 12),
-            ('fit-linear', lambda: oracle_fit_linear(rng), 6))
+            ('fit-linear', lambda: oracle_fit_linear(rng), 6), ('fit-object-histories', oracle_fit_histories, 0))
 
 
 def all_witnesses(seed):
@@ -939,6 +1161,10 @@ def check_oracles(ctx):
                                                        for d in out['disagreements']) else {}
     out['histogram'] = {k: v for k, v in hist.items() if k != 'shared_default'}
     nh = sum(hist.get('histories', {}).values()) + sum(hist.get('argument_kinds', {}).values())
+    if not any(d.get('oracle') == 'fit-object-histories' and d.get('kind') == 'implementation-raised' for d in out['disagreements']):
+        fh = oracle_fit_object_histories()[1]
+        out['histogram']['fit_object_histories'] = fh
+        nh += sum(fh['histories'].values())
     out['n'] += nh
     out['nontrivial'] += nh
     out['samples'].append({'oracle': 'containers-histories', 'history': 'ZernikeFringe([0,0,0,1,0,...]) ; coeffs[1] = -0.5 ; coeffs[8] = 0.25 ; '
